@@ -11,7 +11,7 @@ RULE = (
     "Hypothesis rule-based state machine over ONE live Problem.  initialize draws a topology (aero point behind Geometry "
     "groups / structure alone / aerostructural point), options (symmetric or full span, ground effect, viscous, wave, "
     "compressible, rotation rates, tube or wingbox, weight relief, point masses) and a pool of 2-4 design points (flow "
-    "conditions and geometry/structural design variables).  Rules: goto(point), run_model, run_model_twice, totals, "
+    "conditions and geometry/structural design variables).  Rules: goto(point), tweak(one input of the current point), run_model, run_model_twice, totals, "
     "linearize xk, check_partials(subset).  Model-based oracle: after every run_model all recorded outputs, and after every "
     "totals every total-derivative block and every component sub-Jacobian (read from the component's jacobian object), "
     "must equal those of a freshly built problem evaluated once at the current point (cached per point).  non-trivial = the "
@@ -49,7 +49,7 @@ def point(draw, topo):
         load_factor=draw(S.fl(0.5, 2.5, 1.0)),
         load_seed=draw(st.integers(0, 10 ** 6)),
         load_mag=draw(S.logfl(1.0, 4.0, 1e3)),
-        omega=[draw(S.fl(-0.5, 0.5, 0.0)) for _ in range(3)],
+        omega=draw(st.one_of(st.just([0.0, 0.0, 0.0]), st.lists(S.fl(-0.5, 0.5, 0.0), min_size=3, max_size=3))),
         height=draw(S.logfl(0.0, 2.0, 10.0)),
     )
     return p
@@ -86,8 +86,14 @@ def config(draw):
     return cfg
 
 
+TWEAKS = ["alpha", "alpha", "alpha", "v", "rho", "Mach", "Mach", "re", "sweep", "taper", "load_factor", "omega_zero", "omega_zero",
+          "omega", "twist", "chord", "thick", "cg", "height", "load_mag"]
+
 RULES = {
-    "goto": st.integers(0, 3),
+    # like an optimiser iteration: set the point, analyse (outputs judged) and - if the flag is drawn - linearise (totals judged)
+    "goto": st.tuples(st.integers(0, 3), st.booleans()).map(list),
+    # change ONE input of the current point and keep everything else (alpha sweep at fixed geometry, rate back to zero, ...)
+    "tweak": st.tuples(st.sampled_from(TWEAKS), S.fl(-1.0, 1.0, 0.5), st.booleans()).map(list),
     "run_model": None,
     "run_model_twice": None,
     "totals": None,
@@ -115,6 +121,7 @@ class Interp:
         self.labels.append("symmetric" if cfg["mesh"]["kind"] == "left" else "fullspan")
         self.residuals = {}
         self.prob, self.of, self.wrt = self.build()
+        self.values = None
         self.cur = None
         self.ran = False
         self.cache = {}
@@ -261,11 +268,13 @@ class Interp:
         return out
 
     def fresh(self):
-        i = self.cur
+        import json as _json
+
+        i = _json.dumps(self.values, sort_keys=True)
         if i not in self.cache:
             old = (self.prob, self.of, self.wrt)
             p, of, wrt = self.build()
-            self.set_point(p, self.cfg["points"][i])
+            self.set_point(p, self.values)
             p.run_model()
             outs = {k: np.array(p.get_val(k), float).copy() for k in self.outs}
             J = p.compute_totals(of=of, wrt=wrt)
@@ -278,13 +287,13 @@ class Interp:
     def constant_keys(self):
         """sub-Jacobian keys whose fresh value is identical at two different design points (declared-constant partials)"""
         if self._constant_keys is None:
-            cur = self.cur
+            saved = self.values
             idx = [i for i in range(len(self.cfg["points"]))][:2]
             refs = []
             for i in idx:
-                self.cur = i
+                self.values = dict(self.cfg["points"][i])
                 refs.append(self.fresh()[2])
-            self.cur = cur
+            self.values = saved
             a, b = refs
             self._constant_keys = {k for k in a if k in b and a[k].shape == b[k].shape and np.array_equal(a[k], b[k])}
         return self._constant_keys
@@ -293,7 +302,7 @@ class Interp:
     def enabled(self, op):
         if op == "goto":
             return True
-        if op in ("run_model", "run_model_twice"):
+        if op in ("run_model", "run_model_twice", "tweak"):
             return self.cur is not None
         return self.cur is not None and self.ran
 
@@ -305,10 +314,45 @@ class Interp:
 
     def apply(self, op, args):
         out = Outcome()
+        with_totals = False
         if op == "goto":
-            self.cur = args % len(self.cfg["points"])
-            self.set_point(self.prob, self.cfg["points"][self.cur])
+            idx, with_totals = (args, False) if isinstance(args, int) else args  # older replay files store a bare index
+            self.cur = idx % len(self.cfg["points"])
+            self.values = dict(self.cfg["points"][self.cur])
+            self.set_point(self.prob, self.values)
             self.ran = False
+        elif op == "tweak":
+            name, frac, with_totals = args
+            v = dict(self.values)
+            rng = {"alpha": (-4.0, 9.0), "v": (30.0, 150.0), "rho": (0.3, 1.3), "Mach": (0.1, 0.88), "sweep": (-10.0, 25.0),
+                   "taper": (0.4, 1.3), "load_factor": (0.5, 2.5), "height": (1.0, 100.0), "load_mag": (10.0, 1e4),
+                   "re": (3e5, 1e7)}
+            if name in rng:
+                lo, hi = rng[name]
+                v[name] = lo + (hi - lo) * 0.5 * (frac + 1.0)
+            elif name == "omega_zero":
+                v["omega"] = [0.0, 0.0, 0.0]
+            elif name == "omega":
+                v["omega"] = [0.5 * frac, -0.3 * frac, 0.2]
+            elif name in ("twist", "chord", "thick"):
+                arr = list(v[name])
+                arr[0] = arr[0] + (2.0 * frac if name == "twist" else 0.2 * frac)
+                v[name] = arr
+            elif name == "cg":
+                v["cg"] = [v["cg"][0] + frac, 0.0, v["cg"][2] - 0.3 * frac]
+            self.values = v
+            self.set_point(self.prob, self.values)
+            self.ran = False
+            if "tweak" not in self.labels:
+                self.labels.append("tweak")
+        if op in ("goto", "tweak"):
+            self.prob.run_model()
+            self.ran = True
+            self._cmp_outputs(out)
+            if with_totals and not out.fails:
+                op = "totals"
+        if op in ("goto", "tweak"):
+            pass
         elif op in ("run_model", "run_model_twice"):
             self.prob.run_model()
             if op == "run_model_twice":
@@ -330,7 +374,7 @@ class Interp:
                 if "No matches" not in str(e) and "matches" not in str(e):
                     raise
             self._cmp_outputs(out)
-        elif op == "totals":
+        if op == "totals":
             J = self.prob.compute_totals(of=self.of, wrt=self.wrt)
             _, Jref, sjref = self.fresh()
             # After any check_partials the declared-constant sub-Jacobians may hold whatever approximation OpenMDAO
@@ -369,12 +413,17 @@ class Interp:
         cur = None
         n_lin_here = 0
         for op, a in hist:
-            if op == "goto":
-                if cur is not None and a != cur:
+            if op == "tweak":
+                changed = True
+                n_lin_here = 0
+                cur = ("tweak", len(hist))
+            elif op == "goto":
+                a = [a, False] if isinstance(a, int) else a
+                if cur is not None and a[0] != cur:
                     changed = True
                     n_lin_here = 0
-                cur = a
-            elif op in lin_ops:
+                cur = a[0]
+            if op in lin_ops or (op in ("goto", "tweak") and a[-1]):
                 n_lin_here += 1
                 if changed and seen_lin_at is not None:
                     return True
